@@ -85,4 +85,9 @@ theorem readU_ok {n : Nat} {b : Bytes} (h : n ≤ b.length) :
     readU n b = .ok (beNat (b.take n), b.drop n) := by
   simp [readU, takeN, h]
 
+theorem readU_err {n : Nat} {b : Bytes} {e : Err} (h : readU n b = .error e) : e = .eof := by
+  by_cases hn : n ≤ b.length
+  · rw [readU_ok hn] at h; cases h
+  · rw [readU_short (Nat.lt_of_not_le hn)] at h; cases h; rfl
+
 end Goflow
